@@ -242,12 +242,19 @@ theorem callsignCodes_eight (cs : List Char) (h : validCallsign cs) :
 
 /-! ## 4. BDS 0,9 airborne velocity -/
 
-/-- **velocity components, all 2 × 1023 codes of each component**: code `v + 1` with direction bit
-    `sign` decodes to exactly `±v` (knots for subtype 1).  The reported ground speed and track are
-    the symbolic nodes `hypot(|ew|, |ns|)` and `atan2(ew, ns)` of exactly these components (frame
-    (frame-level `es_velocity_ground`). -/
+/-- **velocity components, subtype 1 (LSB 1 kt), all 2 × 1023 codes of each component**: code `v + 1` with
+    direction bit `sign` decodes to exactly `±v` kt.  The reported ground speed and track are the symbolic nodes
+    `hypot(|ew|, |ns|)` and `atan2(ew, ns)` of exactly these components (frame-level `es_velocity_ground`). -/
 theorem vel_gs_rt : ∀ sign, sign < 2 ^ 1 → ∀ v, v < 2 ^ 10 → v < 1023 →
-    Bds09.velComponent sign (speedCode v) = .ok (signed sign v) :=
+    Bds09.velComponent 1 sign (speedCode v) = .ok (signed sign v) :=
+  enum2 1 10 (by decide +kernel)
+
+/-- **velocity components, subtype 2 (supersonic, LSB 4 kt), all 2 × 1023 codes of each component**: code `v + 1`
+    with direction bit `sign` decodes to exactly `±4·v` kt (0 … 4088 kt), i.e. every speed is reported within one
+    4 kt quantisation step (frame-level `es_velocity_ground_supersonic`; before the repair of finding
+    `C03-supersonic-groundspeed-not-scaled` the decoder reported `±v`). -/
+theorem vel_gs_rt_supersonic : ∀ sign, sign < 2 ^ 1 → ∀ v, v < 2 ^ 10 → v < 1023 →
+    Bds09.velComponent 2 sign (speedCode v) = .ok (signed sign (4 * v)) :=
   enum2 1 10 (by decide +kernel)
 
 /-- heading (subtypes 3, 4): the fraction `headingNum h / headingDen` the readers `Bds09.readAirspeedSub/Super` put
@@ -663,12 +670,12 @@ theorem es_identification (df c aa tc ca : Nat) (cs : List Char)
   · intro F hF
     exact me_bds08 F df c aa tc ca c0 c1 c2 c3 c4 c5 c6 c7 cs hF htc hrt
 
-/-- composition lemma (frame ↔ field codec, NOT a property statement for `sub = 2`): for both velocity-over-ground
-    subtypes the reader reports ground speed / track as `hypot(|ew|, |ns|)` / `atan2(ew, ns)` of the components
-    `ew = ±vew`, `ns = ±vns` in LSB counts — it never looks at the subtype.  Instantiated below as the property
-    theorem (`sub = 1`, LSB 1 kt) and as the finding (`sub = 2`, LSB 4 kt). -/
-theorem es_velocity_ground_of (df c aa sub ic ifr nacv dew vew dns vns vsrc vsign vr gsign g : Nat)
-    (hdf : df = 17 ∨ df = 18) (hc : c < 2 ^ 3) (haa : aa < 2 ^ 24) (hsub : sub = 1 ∨ sub = 2)
+/-- composition lemma (frame ↔ field codec): for both velocity-over-ground subtypes the reader reports ground speed /
+    track as `hypot(|ew|, |ns|)` / `atan2(ew, ns)` of the components `ew = ±lsb·vew` kt, `ns = ±lsb·vns` kt, where
+    `lsb` is the subtype's resolution (1 kt for `sub = 1`, 4 kt for `sub = 2`).  Instantiated below as the two
+    property theorems. -/
+theorem es_velocity_ground_of (df c aa sub lsb ic ifr nacv dew vew dns vns vsrc vsign vr gsign g : Nat)
+    (hdf : df = 17 ∨ df = 18) (hc : c < 2 ^ 3) (haa : aa < 2 ^ 24) (hsub : (sub = 1 ∧ lsb = 1) ∨ (sub = 2 ∧ lsb = 4))
     (hic : ic < 2 ^ 1) (hifr : ifr < 2 ^ 1) (hnacv : nacv < 2 ^ 3)
     (hdew : dew < 2 ^ 1) (hvew : vew < 1023) (hdns : dns < 2 ^ 1) (hvns : vns < 1023)
     (hvsrc : vsrc < 2 ^ 1) (hvsign : vsign < 2 ^ 1) (hvr : vr < 2 ^ 9) (hgsign : gsign < 2 ^ 1) (hg : g < 2 ^ 7) :
@@ -678,11 +685,17 @@ theorem es_velocity_ground_of (df c aa sub ic ifr nacv dew vew dns vns vsrc vsig
       tryFrom (buildES df c aa (me09 sub ic ifr nacv (velGround dew (speedCode vew) dns (speedCode vns))
           vsrc vsign vr gsign g)) =
         .ok (toDecoded (withFields (esHead df c aa) (out09 nacv
-          [ fld (key! "groundspeed") (Bds09.groundspeedJ (signed dew vew) (signed dns vns)),
-            fld (key! "track") (Bds09.trackJ (signed dew vew) (signed dns vns)) ]
+          [ fld (key! "groundspeed") (Bds09.groundspeedJ (signed dew (lsb * vew)) (signed dns (lsb * vns))),
+            fld (key! "track") (Bds09.trackJ (signed dew (lsb * vew)) (signed dns (lsb * vns))) ]
           vsrc vrv gbv))) := by
   obtain ⟨vrv, hvrv⟩ := isOk_elim (vrate_total vsign hvsign vr hvr)
   obtain ⟨gbv, hgbv⟩ := isOk_elim (geobaro_total gsign hgsign g hg)
+  have hcomp : ∀ d, d < 2 ^ 1 → ∀ v, v < 1023 →
+      Bds09.velComponent sub d (speedCode v) = .ok (signed d (lsb * v)) := by
+    intro d hd v hv
+    rcases hsub with ⟨rfl, rfl⟩ | ⟨rfl, rfl⟩
+    · rw [Nat.one_mul]; exact vel_gs_rt d hd v (by omega) hv
+    · exact vel_gs_rt_supersonic d hd v (by omega) hv
   refine ⟨vrv, gbv, ?_, ?_, ?_⟩
   · intro n hn e
     rw [e, vrate_rt vsign hvsign n (by omega) hn] at hvrv
@@ -696,8 +709,8 @@ theorem es_velocity_ground_of (df c aa sub ic ifr nacv dew vew dns vns vsrc vsig
       have : speedCode vns < 2 ^ 10 := by unfold speedCode; omega
       simp [fits, me09, velGround, *]
     · intro F hF
-      exact me_bds09_ground F df c aa sub ic ifr nacv dew _ dns _ vsrc vsign vr gsign g _ _ vrv gbv hF hsub
-        (vel_gs_rt dew hdew vew (by omega) hvew) (vel_gs_rt dns hdns vns (by omega) hvns) hvrv hgbv
+      exact me_bds09_ground F df c aa sub ic ifr nacv dew _ dns _ vsrc vsign vr gsign g _ _ vrv gbv hF
+        (by omega) (hcomp dew hdew vew hvew) (hcomp dns hdns vns hvns) hvrv hgbv
 
 /-- **DF 17/18, BDS 0,9 velocity over ground, subtype 1 (LSB 1 kt)**: all 2 × 1023 × 2 × 1023 combinations of the
     two components (direction bit, `v` kt sent as code `v + 1`), every value of every other field — including *all*
@@ -717,39 +730,32 @@ theorem es_velocity_ground (df c aa ic ifr nacv dew vew dns vns vsrc vsign vr gs
         .ok (toDecoded (withFields (esHead df c aa) (out09 nacv
           [ fld (key! "groundspeed") (Bds09.groundspeedJ (signed dew vew) (signed dns vns)),
             fld (key! "track") (Bds09.trackJ (signed dew vew) (signed dns vns)) ]
-          vsrc vrv gbv))) :=
-  es_velocity_ground_of df c aa 1 ic ifr nacv dew vew dns vns vsrc vsign vr gsign g hdf hc haa (Or.inl rfl)
-    hic hifr hnacv hdew hvew hdns hvns hvsrc hvsign hvr hgsign hg
+          vsrc vrv gbv))) := by
+  have h := es_velocity_ground_of df c aa 1 1 ic ifr nacv dew vew dns vns vsrc vsign vr gsign g hdf hc haa
+    (Or.inl ⟨rfl, rfl⟩) hic hifr hnacv hdew hvew hdns hvns hvsrc hvsign hvr hgsign hg
+  simpa only [Nat.one_mul] using h
 
-/-- **finding** `C03-supersonic-groundspeed-not-scaled` (NOT evidence for the property): in subtype 2 (supersonic,
-    LSB 4 kt) the code `v + 1` stands for `4·v` kt, so the standard's components are `±4·vew`, `±4·vns` kt and the
-    ground speed `hypot(4·vew, 4·vns)`; the decoder reports `hypot(vew, vns)` — a quarter of it (track unaffected) —
-    for every code pair.  `supersonic_unscaled_differs`: the two differ as soon as a component is non-zero. -/
-theorem finding_supersonic_groundspeed_unscaled
-    (df c aa ic ifr nacv dew vew dns vns vsrc vsign vr gsign g : Nat)
+/-- **DF 17/18, BDS 0,9 velocity over ground, subtype 2 (supersonic, LSB 4 kt)**: the same statement with the
+    standard's components `ew = ±4·vew` kt, `ns = ±4·vns` kt (code `v + 1` stands for `4·v` kt): ground speed
+    `hypot(4·vew, 4·vns)`, track `atan2(±4·vew, ±4·vns)`, for all 2 × 1023 × 2 × 1023 code pairs and every value of
+    every other field.  (Repaired finding `C03-supersonic-groundspeed-not-scaled`: the decoder used to report the
+    components in LSB counts, a quarter of the ground speed.) -/
+theorem es_velocity_ground_supersonic (df c aa ic ifr nacv dew vew dns vns vsrc vsign vr gsign g : Nat)
     (hdf : df = 17 ∨ df = 18) (hc : c < 2 ^ 3) (haa : aa < 2 ^ 24)
     (hic : ic < 2 ^ 1) (hifr : ifr < 2 ^ 1) (hnacv : nacv < 2 ^ 3)
     (hdew : dew < 2 ^ 1) (hvew : vew < 1023) (hdns : dns < 2 ^ 1) (hvns : vns < 1023)
     (hvsrc : vsrc < 2 ^ 1) (hvsign : vsign < 2 ^ 1) (hvr : vr < 2 ^ 9) (hgsign : gsign < 2 ^ 1) (hg : g < 2 ^ 7) :
     ∃ vrv gbv,
+      (∀ n, n < 511 → vr = vrateCode n → vrv = some (signed vsign (64 * n))) ∧
+      (∀ n, n < 127 → g = geoBaroCode n → gbv = some (signed gsign (25 * n))) ∧
       tryFrom (buildES df c aa (me09 2 ic ifr nacv (velGround dew (speedCode vew) dns (speedCode vns))
           vsrc vsign vr gsign g)) =
         .ok (toDecoded (withFields (esHead df c aa) (out09 nacv
-          [ fld (key! "groundspeed") (Bds09.groundspeedJ (signed dew vew) (signed dns vns)),
-            fld (key! "track") (Bds09.trackJ (signed dew vew) (signed dns vns)) ]
-          vsrc vrv gbv))) := by
-  obtain ⟨vrv, gbv, _, _, h⟩ := es_velocity_ground_of df c aa 2 ic ifr nacv dew vew dns vns vsrc vsign vr gsign g
-    hdf hc haa (Or.inr rfl) hic hifr hnacv hdew hvew hdns hvns hvsrc hvsign hvr hgsign hg
-  exact ⟨vrv, gbv, h⟩
-
-/-- the unscaled ground speed is not the standard's: `hypot(a, b) ≠ hypot(4a, 4b)` as soon as `a ≠ 0` -/
-theorem supersonic_unscaled_differs (a b : Int) (ha : a ≠ 0) :
-    Bds09.groundspeedJ a b ≠ Bds09.groundspeedJ (4 * a) (4 * b) := by
-  unfold Bds09.groundspeedJ
-  intro h
-  injection h with h1 _
-  have : (a.natAbs : Int) = ((4 * a).natAbs : Int) := h1
-  omega
+          [ fld (key! "groundspeed") (Bds09.groundspeedJ (signed dew (4 * vew)) (signed dns (4 * vns))),
+            fld (key! "track") (Bds09.trackJ (signed dew (4 * vew)) (signed dns (4 * vns))) ]
+          vsrc vrv gbv))) :=
+  es_velocity_ground_of df c aa 2 4 ic ifr nacv dew vew dns vns vsrc vsign vr gsign g hdf hc haa
+    (Or.inr ⟨rfl, rfl⟩) hic hifr hnacv hdew hvew hdns hvns hvsrc hvsign hvr hgsign hg
 
 /-- **DF 17/18, BDS 0,9 airspeed and heading (subtypes 3 and 4)**: every heading code and status,
     every airspeed code `v + 1` and type, every value of the other fields.  Heading `hdg·360/1024`
